@@ -243,6 +243,15 @@ def cx_bool(c, node):
             and isinstance(node.args[0], (ast.ListComp, ast.GeneratorExp)):
         t, b = cx_comp(c, node.args[0], "bool")
         return "pyAny (%s)" % t, b
+    if isinstance(node, ast.Call) and _u(node.func) == "self._is_empty" and len(node.args) == 1 and not node.keywords \
+            and isinstance(node.args[0], ast.Name) and c.vars.get(node.args[0].id, ("",))[0] == "arr" \
+            and c.vars["self"][0] == "h5ds":
+        return "arrIsEmpty %s" % c.vars[node.args[0].id][1], []
+    if isinstance(node, ast.Call) and _u(node.func) == "self._selected_count" and len(node.args) == 1 \
+            and not node.keywords and isinstance(node.args[0], ast.Name) \
+            and c.vars.get(node.args[0].id, ("",))[0] == "index" and c.vars["self"][0] == "h5ds":
+        # truthiness of the count (None = NumPy could not tell, 0 = nothing selected)
+        return "optTruthy (h5SelectedCount %s %s)" % (c.vars["self"][1], c.vars[node.args[0].id][1]), []
     if isinstance(node, ast.Name) and c.vars.get(node.id, ("",))[0] == "index":
         return "(%s).truthy" % c.vars[node.id][1], []
     if isinstance(node, ast.Name) and c.vars.get(node.id, ("",))[0] == "bool":
@@ -545,6 +554,19 @@ class Compiler:
         if body and isinstance(body[0], ast.If) and _u(body[0].test) == "data is None" and not body[0].orelse:
             none_branch = "; ".join(_u(s) for s in body[0].body)
             body = body[1:]
+        guards = []
+        # `if <test>: raise E(...)` guards in front of the store
+        while body and isinstance(body[0], ast.If) and not body[0].orelse and len(body[0].body) == 1 \
+                and isinstance(body[0].body[0], ast.Raise):
+            r = body[0].body[0].exc
+            rn = r.func.id if isinstance(r, ast.Call) and isinstance(r.func, ast.Name) else None
+            if rn not in EXC:
+                c.fail(body[0], "raise of an unknown class")
+            t, b = cx_bool(c, body[0].test)
+            if b:
+                c.fail(body[0], "test that may raise")
+            guards.append("if %s then .error (%s) else" % (t, EXC[rn]))
+            body = body[1:]
         if len(body) != 1 or not isinstance(body[0], ast.If) or len(body[0].body) != 1 or len(body[0].orelse) != 1:
             raise ExtractError("H5DataSet.write_data: expected `if <test>: <store> else: <store>`")
         st = body[0]
@@ -553,7 +575,7 @@ class Compiler:
             c.fail(st, "test that may raise")
         a = self.store(c, st.body[0])
         o = self.store(c, st.orelse[0])
-        term = "if %s then\n    %s\n  else\n    %s" % (t, a, o)
+        term = "".join(g + "\n  " for g in guards) + "if %s then\n    %s\n  else\n    %s" % (t, a, o)
         return none_branch, term
 
     def h5_read_data(self):
@@ -881,5 +903,26 @@ def extract(repo):
       "    Except IoErr (Option DTypeArg × Option (List Int) × Option Arr)", rules)
     d("`Block.create_data_array`: statements between the rules and the creation, and the creation sequence inside the `try`",
       "createSequence : List String × List String", "(%s, %s)" % (_strs(between), _strs(seq)))
+    # methods on the read / creation paths that the model represents by hand: pinned as normalised source text
+    pinned = []
+    for cls, name, kind in ((k.ds, "__array__", None), (k.ds, "__iter__", None), (k.ds, "__len__", None),
+                            (k.ds, "read_direct", None), (k.ds, "dtype", "getter"), (k.ds, "data_type", "getter"),
+                            (k.ds, "_get_dtype", None), (k.h5, "__init__", None), (k.h5, "dtype", "getter"),
+                            (k.h5, "_is_empty", "static"), (k.h5, "_selected_count", None),
+                            (k.da, "create_new", "classmethod"), (k.da, "dtype", "getter")):
+        if kind in ("classmethod", "static"):
+            fn = None
+            for n in cls.body:
+                if isinstance(n, ast.FunctionDef) and n.name == name:
+                    fn = n
+            if fn is None:
+                raise ExtractError("%s.%s not found" % (cls.name, name))
+        else:
+            fn = _fn(cls, name, kind)
+        pinned.append(("%s.%s" % (cls.name, name), "(%s): " % ", ".join(a.arg for a in fn.args.args) +
+                       "; ".join(_u(st) for st in _body(fn))))
+    d("methods of the read and creation paths that are modelled by hand, as normalised source text",
+      "pinned : List (String × String)",
+      "[\n    " + ",\n    ".join("(%s, %s)" % (lean_str(a), lean_str(b)) for a, b in pinned) + "]")
     L.append("end Nix.Gen.DataSet")
     return {TARGET: "\n".join(L) + "\n"}
